@@ -23,7 +23,7 @@ CHECKS = {
     "ansi": ["C13", "C14", "C16", "C15", "C01"], "style": ["C14", "C12", "C01"], "hypertext": ["C15", "C12", "C01", "C06"],
     "gemtext": ["C15", "C12", "C01"], "plaintext": ["C15", "C12", "C01"], "markdown": ["C15", "C12", "C01"],
     "mime": ["C17", "C03"], "object": ["C17", "C01"], "jtp": ["C03", "C05", "C04", "C02"], "client": ["C02", "C04", "C03", "C09"],
-    "pub": ["C09", "C10", "C12", "C06", "C01", "C02", "C07"], "splicer": ["C11", "C08"], "feed": ["C18", "C07"],
+    "pub": ["C09", "C10", "C12", "C06", "C01", "C02", "C07", "C04", "C11"], "splicer": ["C11", "C08"], "feed": ["C18", "C07"],
     "history": ["C18", "C07"], "config": ["C19"], "ui": ["C07", "C16", "C20", "C08"],
 }
 OPS = [
